@@ -407,26 +407,40 @@ def run(ctx):
                 if h_ is not None and h_ not in cl and not h_.raw.get('derived') and 'ExternValue' in h_.raw.get('output', '') and 'grammar::ExternValue' in ' '.join(h_.raw.get('inputs', [])):
                     cl += [h_] + P.closures_of(h_)
         ok = False
-        for f in cl:
-            for x in f.exits():
-                if x['kind'] == 'ok' and x['expr'][2][0][1][0] == 'agg' and x['expr'][2][0][1][1].endswith('ExternValue'):
-                    ev = dict(x['expr'][2][0][1][2])
-                    a = ev['address']
-                    wc = [y for y in walk(a) if is_call(y, 'with_context') or is_call(y, 'ok_or')]
-                    addr_opt = a[0] == 'try' and bool(wc)
-                    # the Option that is tested is this extern value's own: a local of the per-value closure that starts
-                    # as None and is only ever set from the `address` literal (state must not leak between values)
-                    src_ = strip(wc[0][2][0]) if wc else None
-                    own = False
-                    if src_ is not None and src_[0] == 'var':
-                        ds = f.init_of(src_[1])
-                        own = any(d[0] == 'agg' and d[1].endswith('Option::None') for d in ds) and any(
-                            any(isinstance(y, tuple) and y[0] == 'payload' and y[2] == 'IntLiteral' for y in walk(d)) for d in ds) and len(ds) == 2
-                    addr_opt = addr_opt and own
-                    fl = lambda e, n: any(isinstance(y, tuple) and y[0] == 'field' and y[2] == n for y in walk(e))
-                    ok = addr_opt and fl(ev['visibility'], 'visibility') and fl(ev['name'], 'name') and ev['type_'][0] == 'agg' and ev['type_'][1].endswith('Type::Unresolved') and fl(ev['type_'], 'type_')
-                    strs = [op.get('str') for bi in f.normal_blocks() for op in f.block_operands(bi) if op.get('k') == 'Const' and 'str' in op]
-                    ok = ok and 'address' in strs
+        from r_panic import agg_sites
+        sites = [(f, bi, st) for (f, bi, st) in agg_sites(P, r'semantic::types::ExternValue$') if f in cl]
+        nsites = len(sites)
+        for f, bi, st in sites:
+            ev = dict(f.expr_of_rvalue(st['rv'])[2])
+            a = ev['address']
+            wc = [y for y in walk(a) if is_call(y, 'with_context') or is_call(y, 'ok_or')]
+            src_ = None
+            if strip(a)[0] == 'try' and wc:
+                src_ = strip(wc[0][2][0])
+            elif strip(a)[0] == 'payload' and strip(a)[2] == 'Some' and strip(strip(a)[1])[0] == 'var':
+                # `let Some(address) = address else { bail!(..) }`: the None case must end in Err
+                cand = strip(strip(a)[1])
+                if any(g.kind == 'reject' and g.kinds <= {'err_own'} and g.pred[0] == 'is_none' and strip(g.pred[1]) == cand for g in guards_of(f)):
+                    src_ = cand
+            # the Option that is tested is this extern value's own: a local that starts as None for every value and is only
+            # ever set from the `address` literal (state must not leak between values)
+            own = False
+            if src_ is not None and src_[0] == 'var':
+                dfs = f.defs().get(src_[1], [])
+                ds = f.init_of(src_[1])
+                own = any(d[0] == 'agg' and d[1].endswith('Option::None') for d in ds) and any(
+                    any(isinstance(y, tuple) and y[0] == 'payload' and y[2] == 'IntLiteral' for y in walk(d)) for d in ds) and len(ds) == 2
+                L_ = innermost_loop(f, bi)
+                # built inside a loop over the values: the None must be (re)assigned in every trip before the attribute scan
+                outer = [L2 for L2 in f.loops() if bi in L2[1]]
+                if own and outer:
+                    big = max(outer, key=lambda L2: len(L2[1]))
+                    none_blocks = [d_[0] for d_ in dfs if strip(f.expr_of_def(d_))[0] == 'agg' and strip(f.expr_of_def(d_))[1].endswith('Option::None')]
+                    own = all(nb in big[1] and f.dominates(nb, bi) for nb in none_blocks)
+            fl = lambda e, n: any(isinstance(y, tuple) and y[0] == 'field' and y[2] == n for y in walk(e))
+            this = src_ is not None and own and fl(ev['visibility'], 'visibility') and fl(ev['name'], 'name') and ev['type_'][0] == 'agg' and ev['type_'][1].endswith('Type::Unresolved') and fl(ev['type_'], 'type_')
+            strs = [op.get('str') for bi2 in f.normal_blocks() for op in f.block_operands(bi2) if op.get('k') == 'Const' and 'str' in op]
+            ok = this and 'address' in strs and nsites == 1
         ctx.ob(['C15', 'C17'], 'R-GUARD', 'G13|extern-value-needs-address', ok,
                'an extern value takes its address from the `address` attribute, a missing one is an error; visibility, name and type come from the declaration itself', loc(am[0].span))
     # extern values resolved for every module, every value (C10/C15)
